@@ -6,7 +6,7 @@ PID = "C15"
 PARALLEL = {"C15": 4, "C15retry": 2}
 TIMEOUT = {"quick": 1500, "thorough": 7000}
 SUBS = ["C15", "C15retry"]
-RULE = ("stores: random create/write/commit/discard-writer/open(offset)/stat/discard sequences over 2 tasks x 2 partitions on the "
+RULE = ("stores: the file store on the real local file system with the directory removed under live writers (directed); random create/write/commit/discard-writer/open(offset)/stat/discard sequences over 2 tasks x 2 partitions on the "
         "memory store and on the file store, the latter with a failure injected at the k-th underlying file operation "
         "(every k up to the number of operations of the failure-free run of the same sequence); retrying reader: streams of "
         "0..12 bytes, buffer sizes 1..5, scripts over {open fails, read fails (with 0..3 junk bytes), short read of n bytes, "
@@ -63,8 +63,22 @@ def directed():
     return out
 
 
+def directed_local():
+    """the file store on the real local file system: the directory removed under live writers"""
+    out = []
+    for pre in ("", "create b 0 ; write 0 keep ; commit 0 2 ; "):
+        k = 1 if pre else 0
+        out.append(pre + "create a 0 ; write %d hello ; breakdir ; commit %d 3 ; stat a 0 ; open a 0 0 ; stat b 0" % (k, k))
+        out.append(pre + "create a 0 ; create a 1 ; write %d hello ; write %d xy ; breakdir ; commit %d 1 ; commit %d 3 ; stat a 0 ; stat a 1 ; "
+                   "create a 0 ; write %d again ; commit %d 5 ; stat a 0 ; open a 0 2" % (k, k + 1, k + 1, k, k + 2, k + 2))
+        out.append(pre + "create a 0 ; write %d hello ; commit %d 3 ; stat a 0 ; open a 0 1 ; discard a 0 ; stat a 0" % (k, k))
+    return out
+
+
 def gen(r, tier, sub):
     if sub == "C15":
+        for s in directed_local():
+            yield "lfile FAIL 0 ; " + s
         for s in directed():
             yield "mem FAIL 0 ; " + s
             yield "file FAIL 0 ; " + s
